@@ -773,6 +773,8 @@ class _Frame:
                 return getattr(obj, attr)
             if attr == "astype":
                 return lambda *a, **k: obj
+            if attr == "repeat":
+                return lambda repeats, axis=None: _np_repeat(obj, repeats, axis)
             if attr in ("integrate", "_ndim") and hasattr(obj, attr):
                 return getattr(obj, attr)
             raise self.bad(f"array attribute {attr}", n)
